@@ -76,6 +76,11 @@ def stepName : Step → String
   | .store f n => s!"store {f} {n}"
   | .write f k _ => s!"write {f} {k}"
   | .msync f => s!"msync {f}"
+  | .tmpCreate f => s!"tmpcreate {f}"
+  | .tmpTruncate f n => s!"tmptruncate {f} {n}"
+  | .tmpZero16 f => s!"tmpzero16 {f}"
+  | .tmpFsync f => s!"tmpfsync {f}"
+  | .rename f _ => s!"rename {f}"
   | .create f => s!"create {f}"
   | .truncate f n => s!"truncate {f} {n}"
   | .zero16 f => s!"zero16 {f}"
